@@ -262,6 +262,19 @@ func (s *MsgSpec) canFail(i int) bool {
 	return s.Attach[i].Source != "reader" && s.Attach[i].Source != "file" && s.Attach[i].Source != "tmpl"
 }
 
+// canFailOpen: the source of producer i is opened again at render time (and can have vanished).
+func (s *MsgSpec) canFailOpen(i int) bool {
+	if i < len(s.Parts) {
+		return false
+	}
+	i -= len(s.Parts)
+	if i < len(s.Embeds) {
+		return s.Embeds[i].Source == "fs" || s.Embeds[i].Source == "file"
+	}
+	i -= len(s.Embeds)
+	return s.Attach[i].Source == "fs" || s.Attach[i].Source == "file"
+}
+
 // clone makes a deep copy of the spec (slices of parts/files).
 func (s MsgSpec) clone() MsgSpec {
 	c := s
